@@ -234,6 +234,8 @@ class TreeCompiler:
         self.observe_nodes = observe_nodes
         self.observe_leaves = observe_leaves
         self.merges = []  # (left_count, right_count) item counts at each merge, in (self, other) order
+        self.last_obs = {}   # register -> op index of its latest observation
+        self.parents = {}    # op index of a node observation -> (obs op of the receiver before the merge, obs op of the argument)
 
     def build(self, tree):
         r, span, cnt = self._eval(tree)
@@ -258,9 +260,11 @@ class TreeCompiler:
         elif how == 'extend_ref':
             c.op('N', r)
             c.op('ER', r, xs)
+        self.last_obs.pop(r, None)
         if self.observe_leaves:
             k = c.op('O', r)
             self.obs.append((k, (i, i + 1), 'leaf'))
+            self.last_obs[r] = k
         return r, (i, i + 1), len(xs) // self.arity
 
     def _eval(self, t):
@@ -280,9 +284,14 @@ class TreeCompiler:
             res, dead = rr, rl
         self.free.append(dead)
         span = (sl[0], sr[1])
+        before = (self.last_obs.get(res), self.last_obs.get(dead))
+        self.last_obs.pop(res, None)
         if self.observe_nodes:
             k = c.op('O', res)
             self.obs.append((k, span, 'node'))
+            self.last_obs[res] = k
+            if before[0] is not None and before[1] is not None:
+                self.parents[k] = before
         return res, span, cl + cr
 
 
